@@ -35,6 +35,7 @@
 #include <cstdlib>
 #include <cstring>
 #include <exception>
+#include <regex>
 #include <string>
 #include <vector>
 
@@ -310,7 +311,22 @@ run_case(DeviceManager* dm, const std::vector<Entry>& tab, Guarded& g, const Cas
                 st = (int)device_manager_select_default(dm, kind, &out);
             int idx = st == Device_Ok ? index_of(tab, out) : -1;
             int enumerated = st == Device_Ok && idx >= 0;
+            // is the pattern (the bytes before the first NUL within len) one the regex library itself refuses to compile?
+            // (an independent compilation with the flags the device manager documents; such a pattern must give an error)
+            int malformed = 0;
+            if (c.op == 'S' && name && c.len > 0 && (size_t)c.len <= c.buf.size()) {
+                std::string pat((const char*)c.buf.data(), (size_t)c.len);
+                pat = pat.substr(0, pat.find('\0'));
+                if (!pat.empty()) {
+                    try {
+                        std::regex probe(pat, std::regex::ECMAScript | std::regex::icase);
+                    } catch (...) {
+                        malformed = 1;
+                    }
+                }
+            }
             std::string l = "{\"e\":\"Select\",";
+            l += malformed ? "\"bad\":1," : "\"bad\":0,";
             snprintf(b, sizeof(b), "\"id\":%ld,\"op\":\"%c\",\"kind\":%d,\"len\":%ld,\"status\":%d,\"index\":%d,\"g\":%d,", c.id, c.op, (int)c.kind, c.len, st, idx, c.ast != "-" ? 1 : 0);
             l += b;
             l += "\"pat\":" + bytes_json(c.buf.data(), c.buf.size()) + ",\"ast\":" + (c.ast != "-" ? c.ast : std::string("[]")) + "}";
